@@ -257,7 +257,13 @@ func (b *versionedKVBackend) Salt(ctx context.Context, s logical.Storage) (*salt
 	if err != nil {
 		return nil, err
 	}
-	b.salt = salt
+
+	// A salt generated through a transaction only becomes durable when that
+	// transaction commits; do not cache it, so that a rollback cannot leave
+	// us deriving version keys from a salt that was never persisted.
+	if _, inTxn := s.(logical.Transaction); !inTxn || !salt.DidGenerate() {
+		b.salt = salt
+	}
 	return salt, nil
 }
 
